@@ -231,8 +231,17 @@ def run(ctx: Ctx) -> None:
     rff = ctx.flow(ar)
     mi = stmts_matching(ar, "self._match_index[follower] = match_index")
     okr = len(mi) == 1 and rff.holds_at(node_of(rff.cfg, mi[0][0]), Fact("truthy", "success")) and rff.holds_at(node_of(rff.cfg, mi[0][0]), Fact("eq", "RaftState.LEADER", "self._state"))
+    if okr:
+        wn = node_of(rff.cfg, mi[0][0])
+        okr = rff.holds_at(wn, Fact("le", "self._current_term", "term")) or rff.holds_at(wn, Fact("eq", "self._current_term", "term"))
+        # the same for every other leader-state write of this handler
+        for st in walk_stmts(ar.node.body):
+            if isinstance(st, ast.Assign) and unparse(st.targets[0]).startswith(("self._next_index[", "self._match_index[")):
+                n2 = node_of(rff.cfg, st)
+                if not (rff.holds_at(n2, Fact("le", "self._current_term", "term")) or rff.holds_at(n2, Fact("eq", "self._current_term", "term"))):
+                    okr = False
     src = stmts_matching(ar, "match_index = metadata.get('match_index', 0)")
-    ctx.ob("C11-7", "G7", ar, mi[0][0] if mi else None, okr and len(src) == 1, "the leader records exactly the match_index the follower reported, only on success and only while leader")
+    ctx.ob("C11-7", "G7", ar, mi[0][0] if mi else None, okr and len(src) == 1, "the leader records exactly the match_index the follower reported, only on success, only while leader, and only from a reply of its current term (a reply from an earlier leadership stint says nothing about the current log)")
     protocol_schema(ctx, "C11-7", node)
 
     for r, k in (("C11-1", 4), ("C11-2", 2), ("C11-3", 6), ("C11-4", 3), ("C11-5", 4), ("C11-6", 3), ("C11-7", 6), ("C11-8", 2)):
@@ -240,6 +249,7 @@ def run(ctx: Ctx) -> None:
 
 
 MUTANTS = [
+    ("stale-term-ack-accepted", RAFT, "        if term < self._current_term:\n            return []\n\n        if follower is None:", "        if follower is None:", "C11-7"),
     ("vote-ignores-prior-vote", RAFT, "            and (self._voted_for is None or self._voted_for == candidate)\n", "", "C11-1"),
     ("vote-log-check-index-only", RAFT, "                or (last_log_term == self._log.last_term and last_log_index >= self._log.last_index)", "                or last_log_index >= self._log.last_index", "C11-1"),
     ("vote-log-check-dropped", RAFT, "            and (\n                last_log_term > self._log.last_term\n                or (last_log_term == self._log.last_term and last_log_index >= self._log.last_index)\n            )\n", "", "C11-1"),
